@@ -47,6 +47,8 @@ pub(crate) struct AdmissionPolicy<Key>
     sender: crossbeam_channel::Sender<BufferEvent>,
     keep_running: Arc<AtomicBool>,
     stats_counter: Arc<ConcurrentStatsCounter>,
+    #[cfg(feature = "verif_hooks")]
+    verif: Arc<crate::cache::verif::Instance>,
 }
 
 impl<Key> AdmissionPolicy<Key>
@@ -67,6 +69,8 @@ impl<Key> AdmissionPolicy<Key>
             sender,
             keep_running: Arc::new(AtomicBool::new(true)),
             stats_counter,
+            #[cfg(feature = "verif_hooks")]
+            verif: crate::cache::verif::current(),
         };
         policy.start(receiver);
         policy
@@ -75,12 +79,26 @@ impl<Key> AdmissionPolicy<Key>
     fn start(&self, receiver: Receiver<BufferEvent>) {
         let keep_running = self.keep_running.clone();
         let access_frequency = self.access_frequency.clone();
+        #[cfg(feature = "verif_hooks")]
+        let verif = self.verif.clone();
 
         thread::spawn(move || {
+            #[cfg(feature = "verif_hooks")]
+            crate::cache::verif::install(Some(verif.clone()));
             while let Ok(event) = receiver.recv() {
+                #[cfg(feature = "verif_hooks")]
+                verif.consumer_gate.pass();
+                #[cfg(feature = "verif_hooks")]
+                verif.point(crate::cache::verif::Site::ConsumerLoop);
                 match event {
                     BufferEvent::Full(key_hashes) => {
+                        #[cfg(feature = "verif_hooks")]
+                        let verif_records = key_hashes.len() as u64;
                         { access_frequency.write().increment_access(key_hashes); }
+                        #[cfg(feature = "verif_hooks")]
+                        verif.access_records_applied.fetch_add(verif_records, Ordering::AcqRel);
+                        #[cfg(feature = "verif_hooks")]
+                        verif.access_batches_applied.fetch_add(1, Ordering::AcqRel);
                     }
                     BufferEvent::Shutdown => {
                         info!("Received Shutdown event in AdmissionPolicy, shutting it down");
@@ -105,6 +123,15 @@ impl<Key> AdmissionPolicy<Key>
                                         key_description: &KeyDescription<Key>,
                                         delete_hook: &DeleteHook) -> CommandStatus
         where DeleteHook: Fn(Key) {
+        #[cfg(feature = "verif_hooks")]
+        if self.verif.tracing() {
+            self.verif.event(crate::cache::verif::Event::AdmissionBegin {
+                id: key_description.id,
+                weight: key_description.weight,
+                max_weight: self.cache_weight.get_max_weight(),
+                space_left: self.cache_weight.is_space_available_for(key_description.weight).0,
+            });
+        }
         if key_description.weight > self.cache_weight.get_max_weight() {
             debug!(
                 "Rejecting key with id {} and weight {}, given its weight is greater than the max cache weight {}",
@@ -113,6 +140,8 @@ impl<Key> AdmissionPolicy<Key>
             return CommandStatus::Rejected(RejectionReason::KeyWeightIsGreaterThanCacheWeight);
         }
         let (space_left, is_enough_space_available) = self.cache_weight.is_space_available_for(key_description.weight);
+        #[cfg(feature = "verif_hooks")]
+        self.verif.point(crate::cache::verif::Site::MaybeAddAfterSpaceCheck);
         if is_enough_space_available {
             self.cache_weight.add(key_description);
             return CommandStatus::Accepted;
@@ -149,6 +178,15 @@ impl<Key> AdmissionPolicy<Key>
     pub(crate) fn weight_used(&self) -> Weight {
         self.cache_weight.get_weight_used()
     }
+
+    #[cfg(feature = "verif_hooks")]
+    pub(crate) fn verif_weight_entries(&self) -> Vec<crate::cache::verif::WeightEntryView<Key>> { self.cache_weight.verif_entries() }
+
+    #[cfg(feature = "verif_hooks")]
+    pub(crate) fn verif_increment_access(&self, key_hashes: Vec<KeyHash>) { self.access_frequency.write().increment_access(key_hashes); }
+
+    #[cfg(feature = "verif_hooks")]
+    pub(crate) fn verif_sketch_progress(&self) -> (u64, u64) { self.access_frequency.read().verif_progress() }
 
     pub(crate) fn shutdown(&self) {
         let _ = self.sender.clone().send(BufferEvent::Shutdown);
@@ -189,7 +227,22 @@ impl<Key> AdmissionPolicy<Key>
 
         let mut sample = self.cache_weight.sample(EVICTION_SAMPLE_SIZE, frequency_counter);
         while space_available < key_description.weight {
+            #[cfg(feature = "verif_hooks")]
+            self.verif.point(crate::cache::verif::Site::CreateSpaceLoop);
+            #[cfg(feature = "verif_hooks")]
+            let verif_rest_of_sample = if self.verif.tracing() { sample.verif_snapshot() } else { Vec::new() };
             if let Some(sampled_key) = sample.min_frequency_key() {
+                #[cfg(feature = "verif_hooks")]
+                if self.verif.tracing() {
+                    self.verif.event(crate::cache::verif::Event::AdmissionStep {
+                        id: key_description.id,
+                        incoming_estimate: incoming_key_access_frequency,
+                        space_available,
+                        victim: Some(crate::cache::verif::SampledKeyView { id: sampled_key.id, weight: sampled_key.weight, estimate: sampled_key.estimated_frequency }),
+                        rest_of_sample: verif_rest_of_sample.into_iter().filter(|key| key.id != sampled_key.id).collect(),
+                        evicted: !(incoming_key_access_frequency < sampled_key.estimated_frequency),
+                    });
+                }
                 if incoming_key_access_frequency < sampled_key.estimated_frequency {
                     debug!(
                         "Rejecting key with id {} and estimated frequency {}, given its frequency is less than the sampled key with frequency {}",
@@ -204,6 +257,17 @@ impl<Key> AdmissionPolicy<Key>
                 space_available = fresh_space_available;
                 let _ = sample.maybe_fill_in();
             } else {
+                #[cfg(feature = "verif_hooks")]
+                if self.verif.tracing() {
+                    self.verif.event(crate::cache::verif::Event::AdmissionStep {
+                        id: key_description.id,
+                        incoming_estimate: incoming_key_access_frequency,
+                        space_available,
+                        victim: None,
+                        rest_of_sample: Vec::new(),
+                        evicted: false,
+                    });
+                }
                 let (_, is_enough_space_available) = self.cache_weight.is_space_available_for(key_description.weight);
                 if is_enough_space_available {
                     return CommandStatus::Accepted;
